@@ -178,6 +178,19 @@ pub fn gen_sorted(rng: &mut Rng, quick: bool, case: u64) -> DirSpec {
         let cnt = 1 + rng.below((n as u32 - off) as u64) as u32;
         indexes.push(IndexSpec { name: "sub".into(), offset: off, count: cnt });
     }
+    // "all index windows" includes the degenerate ones: empty windows (at the start, inside, at the
+    // very end of the store), one-entry windows, a proper prefix and a proper suffix
+    if n >= 1 {
+        let inside = rng.below(n as u64) as u32;
+        indexes.push(IndexSpec { name: "empty-in".into(), offset: inside, count: 0 });
+        indexes.push(IndexSpec { name: "empty-end".into(), offset: n as u32, count: 0 });
+        indexes.push(IndexSpec { name: "one".into(), offset: rng.below(n as u64) as u32, count: 1 });
+    }
+    if n >= 2 {
+        let cut = 1 + rng.below(n as u64 - 1) as u32;
+        indexes.push(IndexSpec { name: "prefix".into(), offset: 0, count: cut });
+        indexes.push(IndexSpec { name: "suffix".into(), offset: cut, count: n as u32 - cut });
+    }
     DirSpec { stores: vec![indexed], common, variants: vec![], sort_keys: Some(sort_keys), entries, indexes, label: format!("sorted-k{}", keykind) }
 }
 
@@ -276,6 +289,13 @@ fn run_one(ctx: &mut Ctx, case: u64, spec: &DirSpec, rng: &mut Rng, expect_failu
                     probes.push(k);
                 }
             }
+            // the keys sitting on the window's edges, inside and just outside
+            for e in [ix.offset as i64 - 1, ix.offset as i64, (ix.offset + ix.count) as i64 - 1, (ix.offset + ix.count) as i64] {
+                if e >= 0 && (e as usize) < keys_sorted.len() {
+                    probes.push(keys_sorted[e as usize].clone());
+                }
+            }
+            ctx.count(&format!("window:{}", if ix.count == 0 { "empty" } else if ix.count == 1 { "one" } else if ix.count as usize == keys_sorted.len() { "whole" } else { "proper" }));
             for p in probes {
                 let mut answers = vec![];
                 for ordered in [true, false] {
